@@ -22,7 +22,7 @@ func init() {
 func genFallback(o *out) {
 	const file = "plugin/executable/sequence/fallback/fallback.go"
 	names := []string{"fallback_send_before_done", "fallback_fail_close_before_send", "fallback_chan_cap",
-		"fallback_collect_rounds", "fallback_timer_arg", "fallback_wait_cases", "fallback_hold_cases"}
+		"fallback_collect_rounds", "fallback_timer_owned_by_secondary", "fallback_timer_arg", "fallback_wait_cases", "fallback_hold_cases"}
 	fail := func(why string) {
 		for _, n := range names {
 			o.missing(n, why)
@@ -219,6 +219,27 @@ func genFallback(o *out) {
 			}
 			return true
 		})
+		// Ownership: the timer is taken by the secondary goroutine itself and
+		// given back by a defer of that same goroutine, and nowhere else in
+		// doFallback -- so no goroutine can still wait on a timer that is
+		// back in the pool, and calls share no state through it.
+		total := 0
+		ast.Inspect(fd.Body, func(n ast.Node) bool {
+			if ce, ok := n.(*ast.CallExpr); ok {
+				if f := exprString(ce.Fun); f == "pool.GetTimer" || f == "pool.ReleaseTimer" {
+					total++
+				}
+			}
+			return true
+		})
+		deferred := 0
+		for _, st := range sec.Body.List {
+			if ds, ok := st.(*ast.DeferStmt); ok && exprString(ds.Call.Fun) == "pool.ReleaseTimer" {
+				deferred++
+			}
+		}
+		fmt.Fprintf(&o.buf, "Definition fallback_timer_owned_by_secondary : bool := %v. (* %s doFallback: pool.GetTimer and a deferred pool.ReleaseTimer inside the secondary goroutine and no other use of the pool in doFallback *)\n",
+			len(args) == 1 && deferred == 1 && total == 2, file)
 		if len(args) != 1 {
 			o.missing("fallback_timer_arg", fmt.Sprintf("expected 1 pool.GetTimer call in the secondary goroutine, found %d", len(args)))
 			return
